@@ -74,8 +74,13 @@ func check(run *stats.Run, f stats.Failer, c Case) verdict {
 			m[a.Hash()] = true
 		}
 	}
-	out := prog.Run(text, extra, store)
+	// Every fact the engine adds must be a fact of the (finite, complete) reference model: adding more
+	// distinct facts than that is unsoundness, and the bound turns a divergence into that verdict.
+	out := prog.RunBounded(text, extra, store, len(ref.Model)+8)
 	switch {
+	case out.Overrun != nil:
+		run.Failf(f, "evaluation added %d distinct facts although the stratified least model has only %d (diverging or unsound); aborted by the harness\nprogram:\n%spre-loaded: %v",
+			out.Overrun.Created, len(ref.Model), text, atomsText(c.Gen.Extra))
 	case out.ParseErr != nil:
 		run.Failf(f, "own printer produced text the parser rejects (harness or parser defect): %v\n%s", out.ParseErr, text)
 	case out.Panic != "":
